@@ -142,6 +142,7 @@ pub fn plan_for(seed: u64, run: u64) -> ProcPlan {
     };
     let meta = tool == Tool::Predict && rng.chance(3, 10);
     // usually a handful of lines; sometimes enough to cross 64 / 256 records
+    let giant_line = tool == Tool::Predict && run % 4_000 == 3_998;
     let soak = run % 2_000 == 1_999;
     let n_lines = if soak {
         // long-running process: past 2^16 records through one pair of sentence objects
@@ -195,6 +196,15 @@ pub fn plan_for(seed: u64, run: u64) -> ProcPlan {
             })
             .collect(),
     };
+    let mut lines = lines;
+    if giant_line {
+        // one line of more than 16 MiB (a document per line, or CR-only line endings)
+        let n = rng.range(5_700_000, 6_000_000);
+        let big: String = (0..n).map(|i| if i % 97 == 0 { 'a' } else { *rng.pick(&['あ', 'い', '漢', '字', 'ア']) }).collect();
+        lines.truncate(3);
+        let at = rng.below(lines.len() + 1);
+        lines.insert(at, big);
+    }
     let mut wsconst = vec![];
     if rng.chance(1, 2) {
         for _ in 0..rng.range(1, 3) {
